@@ -207,6 +207,12 @@ func genLockCase(focus string, maxBlocks int) func(t *rapid.T) LockCase {
 				}
 			}
 		}
+		// about a third of the histories are restarted from an exported state once or twice
+		if len(c.Blocks) > 3 && rapid.IntRange(0, 2).Draw(t, "reimport") == 0 {
+			for k, n := 0, rapid.IntRange(1, 2).Draw(t, "nreimport"); k < n; k++ {
+				c.Blocks[rapid.IntRange(2, len(c.Blocks)-1).Draw(t, "reimportAt")].Reimport = true
+			}
+		}
 		return c
 	}
 }
